@@ -317,27 +317,43 @@ Proof.
   - apply Forall_zrepeat. apply blank_row_len. lia.
 Qed.
 
+(* the fields of the state after setSize, without unfolding the nested setters in later proofs *)
+Lemma set_size_fields w h s : 1 <= w -> 1 <= h ->
+  let s' := set_size w h s in
+  let bot1 := clamp (h - (sH s - bot s)) 0 (h - 1) in
+  rows s' = map (fit_row (sty s) w) (zfirstn h (rows s)) ++ zrepeat (blank_row w (sty s)) (h - zlen (zfirstn h (rows s))) /\
+  sW s' = w /\ sH s' = h /\
+  cx s' = clamp (cx s) 0 (w - 1) /\ cy s' = clamp (cy s) 0 (h - 1) /\
+  svx s' = clamp (svx s) 0 (w - 1) /\ svy s' = clamp (svy s) 0 (h - 1) /\
+  top s' = (if bot1 <? top s then 0 else top s) /\ bot s' = (if bot1 <? top s then h - 1 else bot1) /\
+  crash s' = crash s /\ sty s' = sty s /\ awrap s' = awrap s.
+Proof.
+  intros Hw Hh. unfold set_size.
+  destruct (Z.leb_spec w 0); [lia|]. destruct (Z.leb_spec h 0); [lia|]. cbn [orb].
+  destruct (clamp (h - (sH s - bot s)) 0 (h - 1) <? top s); repeat split; reflexivity.
+Qed.
+
 (* setSize re-establishes the invariant at the new size (C18) *)
 Lemma set_size_ok w h s : Inv s -> 1 <= w -> 1 <= h ->
   Inv (set_size w h s) /\ sW (set_size w h s) = w /\ sH (set_size w h s) = h.
 Proof.
-  intros Hs Hw Hh. unfold set_size.
-  destruct (Z.leb_spec w 0); [lia|]. destruct (Z.leb_spec h 0); [lia|]. cbn [orb].
+  intros Hs Hw Hh.
+  destruct (set_size_fields w h s Hw Hh) as (R & W & H & X & Y & SX & SY & T & B & C & _ & _).
+  set (s' := set_size w h s) in *. clearbody s'.
   pose proof (clamp_range (h - (sH s - bot s)) 0 (h - 1) ltac:(lia)) as Hb.
   set (bot1 := clamp (h - (sH s - bot s)) 0 (h - 1)) in *.
-  set (tb := if bot1 <? top s then _ else _).
-  assert (Htb : 0 <= fst tb <= snd tb /\ snd tb < h).
-  { subst tb. pose proof (inv_top s Hs). destruct (Z.ltb_spec bot1 (top s)); cbn [fst snd]; lia. }
-  destruct tb as [t' b']. cbn [fst snd] in Htb.
   pose proof (clamp_range (cx s) 0 (w - 1) ltac:(lia)). pose proof (clamp_range (cy s) 0 (h - 1) ltac:(lia)).
   pose proof (clamp_range (svx s) 0 (w - 1) ltac:(lia)). pose proof (clamp_range (svy s) 0 (h - 1) ltac:(lia)).
-  split; [|unfold set_style; ss; auto].
-  unfold set_style. apply Inv_emit. destruct Hs.
-  constructor; ss; try assumption; try lia.
-  - zl.
-  - apply Forall_app. split.
+  pose proof (inv_top s Hs). pose proof (zlen_nonneg (rows s)).
+  split; [|split; assumption].
+  constructor; rewrite ?W, ?H, ?X, ?Y, ?SX, ?SY, ?T, ?B, ?C; try lia.
+  - rewrite R. rewrite zlen_app, zlen_map, zlen_zrepeat, zlen_zfirstn. lia.
+  - rewrite R. apply Forall_app. split.
     + apply Forall_forall. intros r Hr. apply in_map_iff in Hr. destruct Hr as (r0 & <- & _). apply fit_row_len. lia.
     + apply Forall_zrepeat. apply blank_row_len. lia.
+  - destruct (Z.ltb_spec bot1 (top s)); lia.
+  - destruct (Z.ltb_spec bot1 (top s)); lia.
+  - apply (inv_crash s Hs).
 Qed.
 
 #[export] Hint Resolve Pres_move_cursor Pres_set_cursor_pos Pres_scroll Pres_erase_region Pres_delete_chars
